@@ -47,7 +47,7 @@ SPEC = dict(
                 "deferred clean-up; cancellation) - for EVERY interleaving a Fetch that returns nil holds a populated Block verified "
                 "against its own roots (C10_conc_fetch_sound, the code with fix-c10-3), no Block ever holds an unverified container, the "
                 "atomic registration keeps the registry entry with the one in-flight fetch that registered it and the honest body for it "
-                "is accepted (C10_conc_registry_owner / _pending_served); refuted with vm_compute witnesses: the two-step registration "
+                "is accepted (C10_conc_registry_owner / _pending_served); the code before fix-c10-3 is safe for every interleaving of fetches that overlap (C10_conc_fetch_sound_overlap); refuted with vm_compute witnesses: the two-step registration "
                 "(C10_conc_twostep_refuted / _displaces) and the code before fix-c10-3, where a self-registered fetch trusts the hasher "
                 "blindly (C10_conc_trust_refuted: stale publication, late NotifyNewBlocks) - both witnesses are replayed on the real "
                 "Fetch. Serving a row from either half an accessor may hand out verifies and yields the row (C10_serve_row_any_half), "
